@@ -7,8 +7,18 @@ steps:  call h | newcall h | batch h n | sub h | ondisc h | isconn | next h | ba
 output: one segment per step (" | "-separated), tokens comma-separated:
     W<hex> C<h>=<res> D<h>=<cause> I0|I1 N<res> Xclosing Xsdrop Xrdrop ;  last segments: P<h>.<h>..  [PANIC]
 The generator plays the server: ids come from a counter (call +1, batch +n, subscribe +2).
+
+Ping / inactivity family (ClientBuilder::enable_ws_ping): config `<slowclose> P<interval_ms>,<limit_ms>,<maxfail> | ...`,
+steps `pong`, `quiet <ms> <class>` (REAL time on the implementation side; class alive|die|stale1 tells the model which
+ticks the silence certainly produces), `failping <ms>`.  The implementation's inactivity check reads the real clock, so
+only CANONICAL FACTS are compared (see canon()): `Wping` tokens are dropped except "at least one ping in a silence of
+>= 2 intervals", the `T..` tokens (what the clock did, see harness/src/bin/clifault.rs) are stripped and used to decide
+whether the timing precondition of the case held (if not the case is re-run, never judged).  Two safe classes only:
+    die    silence >= limit*(maxfail+2) + 2*interval           certainly dead
+    alive  every gap between two received frames < 0.85*limit   certainly alive (the generator aims at gaps <= limit/2)
 """
 import json
+import os
 import vlib
 
 J = lambda o: json.dumps(o, separators=(",", ":")).encode()
@@ -24,12 +34,21 @@ BAD_FRAMES = [
     (b'[{"id":"x","result":1}]', "badbatchid"),
     (b'[{"id":null,"result":1}]', "badbatchid"),
 ]
-TRANSPORT_CAUSES = ("sendfault", "recvfault", "peerclosed")
+TRANSPORT_CAUSES = ("sendfault", "recvfault", "peerclosed", "inactive")
+PING_CONFIGS = [(20, 60), (20, 100), (15, 80)]      # (ping interval ms, inactive limit ms)
+GAP = 25                                              # ms of silence between two frames of an `alive` stretch
+
+
+def impl_bin(profile="release"):
+    """VERIF_CLIFAULT_BIN overrides the implementation binary (a harness copy built against another tree), both profiles."""
+    return os.environ.get("VERIF_CLIFAULT_BIN") or vlib.rust_bin("clifault", profile)
 
 
 class Script:
-    def __init__(self, rng, slow):
+    def __init__(self, rng, slow, ping=None):
         self.rng, self.slow = rng, slow
+        self.ping = ping         # (interval ms, limit ms, max_failures) or None
+        self.family = None
         self.steps = []          # (text, meta)
         self.h = 0
         self.next_id = 0
@@ -183,7 +202,47 @@ class Script:
             self.add("isconn", kind="isconn")
 
     def text(self):
-        return "%d | %s" % (self.slow, " ; ".join(t for t, _ in self.steps))
+        cfg = "%d" % self.slow + (" P%d,%d,%d" % self.ping if self.ping else "")
+        return "%s | %s" % (cfg, " ; ".join(t for t, _ in self.steps))
+
+    # ---- ping / inactivity
+    def outstanding(self):
+        return sorted(list(self.calls) + list(self.subs) + list(self.batches))
+
+    def pong(self):
+        self.add("pong", kind="pong")
+
+    def quiet_alive(self, ms=GAP):
+        self.add("quiet %d alive" % ms, kind="quiet", cls="alive", ms=ms)
+
+    def die_ms(self):
+        iv, lim, mf = self.ping
+        return lim * (mf + 2) + 2 * iv
+
+    def quiet_die(self):
+        was_alive = self.alive()
+        self.add("quiet %d die" % self.die_ms(), kind="quiet", cls="die", ms=self.die_ms(), fault=True,
+                 pending=self.outstanding() if was_alive else [])
+        if was_alive:
+            self.fault_at, self.cause = len(self.steps) - 1, "inactive"
+
+    def failping(self):
+        iv, lim, mf = self.ping
+        was_alive = self.alive()
+        self.add("failping %d" % (iv + 10), kind="failping", ms=iv + 10, fault=True)
+        if was_alive:
+            self.fault_at, self.cause = len(self.steps) - 1, "sendfault"
+
+    def frame(self, kinds=("pong", "answer")):
+        """one frame from the server: a pong or an ordinary frame (answer / notification)"""
+        k = self.rng.choice(kinds)
+        if k == "pong" or not (self.calls or self.subs or self.batches or self.active):
+            self.pong()
+            return
+        self.answer()
+        t, m = self.steps[-1]
+        if m.get("what") == "push":            # keep the subscription's buffer (8) from filling up
+            self.add("next %d" % m["h"], kind="next")
 
 
 def gen_script(rng, fault_kind=None, pre=None, window=None, slow=None, release=None, drop=False):
@@ -354,6 +413,357 @@ def oracle(S, line, fail):
                     ended[h] = True
 
 
+
+# ---------------------------------------------------------------- ping / inactivity family
+
+def _ping_pre(S, rng, n=None):
+    """work issued while the connection is up (instantaneous steps; answers are frames = activity)"""
+    for _ in range(rng.choice([1, 2, 3, 5]) if n is None else n):
+        r = rng.random()
+        if r < 0.35:
+            S.call()
+        elif r < 0.5:
+            S.batch()
+        elif r < 0.68:
+            S.sub()
+        elif r < 0.85:
+            S.answer()
+        elif r < 0.93:
+            S.add("ondisc %d" % S.newh(), kind="ondisc", h=S.h)
+        else:
+            S.add("isconn", kind="isconn")
+
+
+def _ping_window(S, rng):
+    """after the death: a later call / batch / subscribe, on_disconnect, is_connected (always) and a few random steps"""
+    S.call("newcall")
+    S.add("ondisc %d" % S.newh(), kind="ondisc", h=S.h)
+    S.add("isconn", kind="isconn")
+    for _ in range(rng.choice([0, 1, 2, 3])):
+        r = rng.random()
+        if r < 0.3:
+            rng.choice([S.batch, S.sub])()
+        elif r < 0.5:
+            S.add("settle", kind="settle")
+        elif r < 0.65:
+            S.pong()                                    # nobody reads it any more
+        elif r < 0.8 and (S.calls or S.subs or S.batches):
+            S.answer()
+        else:
+            S.add("isconn", kind="isconn")
+    if S.slow and rng.random() < 0.7:
+        S.add("release-close", kind="release")
+        S.released = True
+        S.call("newcall")
+        S.add("isconn", kind="isconn")
+    for h in sorted(S.active):
+        for _ in range(3):
+            S.add("next %d" % h, kind="next")
+
+
+def gen_ping_silent(rng, ping, slow, with_traffic_first):
+    """pending call + batch + subscribe, then silence: everything fails with the inactivity cause"""
+    S = Script(rng, slow, ping)
+    S.family = "ping-silent-dies"
+    S.call(); S.batch(); S.sub()
+    _ping_pre(S, rng)
+    if with_traffic_first:
+        for _ in range(rng.choice([1, 2, 4])):
+            S.quiet_alive()
+            S.frame()
+            if rng.random() < 0.3:
+                rng.choice([S.call, S.batch, S.sub])()
+    S.add("ondisc %d" % S.newh(), kind="ondisc", h=S.h)
+    S.quiet_die()
+    _ping_window(S, rng)
+    return S
+
+
+def gen_ping_alive(rng, ping, slow, kinds):
+    """frames (pongs / answers / notifications) every GAP ms for longer than it takes a silent connection to die"""
+    S = Script(rng, slow, ping)
+    S.family = "ping-traffic-alive:" + "+".join(kinds)
+    S.sub()
+    S.answer()                                          # an active subscription: notifications are ordinary frames
+    _ping_pre(S, rng)
+    rounds = S.die_ms() // GAP + 2
+    iv, lim, mf = ping
+    long_at = rng.randrange(rounds) if lim // 2 - 5 >= 2 * iv + 2 else None      # one silence long enough for a ping, still safe
+    for i in range(rounds):
+        S.quiet_alive(2 * iv + 2 if i == long_at else GAP)
+        if rng.random() < 0.35:
+            rng.choice([S.call, S.call, S.batch, S.sub])()
+        S.frame(kinds)
+        if rng.random() < 0.1:
+            S.add("isconn", kind="isconn")
+    while S.calls or S.subs or S.batches:               # every call gets its answer in the end
+        h0 = len(S.steps)
+        S.answer()
+        if S.steps[-1][1].get("what") == "push":
+            S.steps.pop()
+    S.add("isconn", kind="isconn")
+    return S
+
+
+def gen_ping_fail(rng, ping, slow):
+    """a ping that cannot be written: the send-fault cause"""
+    S = Script(rng, slow, ping)
+    S.family = "ping-write-fails"
+    _ping_pre(S, rng)
+    if rng.random() < 0.5:
+        S.quiet_alive()
+    S.pong()
+    S.failping()
+    _ping_window(S, rng)
+    return S
+
+
+def gen_ping_cumulative(rng, ping, slow):
+    """max_failures 3, three silences of 2.2 limits (each at least one, at most two stale ticks) with a pong in between:
+    the count is cumulative, so the client is dead by the end (a count reset by activity would keep it alive).  WHEN it
+    dies is up to the clock: compared flattened, judged at the end only."""
+    iv, lim, mf = ping
+    S = Script(rng, slow, ping)
+    S.family = "ping-cumulative"
+    S.flat = True
+    S.call(); S.batch(); S.sub()
+    S.add("ondisc %d" % S.newh(), kind="ondisc", h=S.h)
+    pend = S.outstanding()
+    for i in range(3):
+        S.pong()
+        S.add("quiet %d stale1" % (lim * 22 // 10), kind="quiet", cls="stale1", ms=lim * 22 // 10, pending=pend)
+    S.fault_at, S.cause = len(S.steps) - 1, "inactive"
+    S.call("newcall")
+    S.add("ondisc %d" % S.newh(), kind="ondisc", h=S.h)
+    S.add("isconn", kind="isconn")
+    if slow:
+        S.add("release-close", kind="release")
+        S.released = True
+    return S
+
+
+def ping_scripts(ctx):
+    rng = ctx.rng
+    out = []
+    reps = ctx.scale(2, 12)
+    for iv, lim in PING_CONFIGS:
+        for mf in (1, 2, 3):
+            for slow in (0, 1):
+                ping = (iv, lim, mf)
+                for _ in range(reps):
+                    out.append(gen_ping_silent(rng, ping, slow, False))
+                    out.append(gen_ping_silent(rng, ping, slow, True))
+                    out.append(gen_ping_alive(rng, ping, slow, rng.choice([("pong",), ("answer",), ("pong", "answer")])))
+                    out.append(gen_ping_fail(rng, ping, slow))
+    for kinds in (("pong",), ("answer",), ("pong", "answer")):      # every traffic kind with every max_failures at least once
+        for mf in (1, 2, 3):
+            out.append(gen_ping_alive(rng, (20, 60, mf), rng.choice([0, 1]), kinds))
+    for iv, lim in PING_CONFIGS[:2]:
+        for slow in (0, 1):
+            for _ in range(reps):
+                out.append(gen_ping_cumulative(rng, (iv, lim, 3), slow))
+    return out
+
+
+def _split_tokens(seg):
+    toks, depth, cur = [], 0, ""
+    for ch in seg:
+        depth += (ch == "[") - (ch == "]")
+        if ch == "," and depth == 0:
+            toks.append(cur); cur = ""
+        else:
+            cur += ch
+    if cur:
+        toks.append(cur)
+    return toks
+
+
+def canon(S, line):
+    """-> (canonical line, clock): drops the T tokens and the Wping tokens except one per silence of >= 2 ping intervals.
+    clock = {"quiet": {step: (a, b, slice, gap_so_far)}, "end": (since_last_frame, max_gap)}"""
+    if line.startswith("CRASH") or line.startswith("?"):
+        return line, None
+    iv = S.ping[0]
+    segs = line.split(" | ")
+    clock = {"quiet": {}, "end": None}
+    out = []
+    for k, seg in enumerate(segs):
+        toks = _split_tokens(seg)
+        keep, pings = [], 0
+        for t in toks:
+            if t == "Wping":
+                pings += 1
+            elif t.startswith("T") and t[1:2].isdigit():
+                v = tuple(int(x) for x in t[1:].split("."))
+                if seg.startswith("P"):
+                    clock["end"] = v
+                else:
+                    clock["quiet"][k] = v
+            else:
+                keep.append(t)
+        m = S.steps[k][1] if k < len(S.steps) else {}
+        if pings and m.get("kind") == "quiet" and m["ms"] >= 2 * iv:
+            keep.insert(0, "Wping")
+        out.append(",".join(keep))
+    return " | ".join(out), clock
+
+
+def flatten(line):
+    """what happened, not when: the set of completions, the last is_connected, the transport marks, the pending set"""
+    evs, pend, panic = parse(line)
+    C, D, I, X = {}, {}, None, set()
+    for d in evs:
+        C.update(d["C"]); D.update(d["D"]); X.update(d["X"])
+        I = d["I"] if d["I"] is not None else I
+    return json.dumps({"C": sorted(C.items()), "D": sorted(D.items()), "I": I, "X": sorted(X), "P": pend, "panic": panic})
+
+
+def timing_ok(S, clock):
+    """did the clock allow the verdict the generator planned?  (gaps between frames while the connection is meant to be up)"""
+    if clock is None:
+        return True            # crashed: judged as it is
+    lim = S.ping[1]
+    safe = lim * 0.85
+    if S.fault_at is None:
+        return clock["end"] is not None and clock["end"][1] < safe
+    if getattr(S, "flat", False):
+        first = min(clock["quiet"]) if clock["quiet"] else None      # up at the first silence; no silence long enough for three stale ticks
+        return first is not None and clock["quiet"][first][3] < safe and all(q[1] < lim * 2.9 for q in clock["quiet"].values())
+    q = clock["quiet"].get(S.fault_at)
+    if q is None:
+        return False
+    if S.cause == "inactive":
+        return q[3] < safe                       # up until the silence began
+    return q[3] < safe and q[1] < safe           # failping: no stale tick before or while the ping fails
+
+
+def ping_oracle(S, line, fail):
+    """restates the ping / inactivity part of C09 on the implementation's (canonical) output alone"""
+    if line.startswith("CRASH") or line.startswith("?"):
+        return                                   # the general oracle reports it
+    evs, pend, panic = parse(line)
+    if len(evs) != len(S.steps):
+        return
+    iv, lim, mf = S.ping
+    f = S.fault_at
+    done_at, res = {}, {}
+    for k, d in enumerate(evs):
+        for h, r in list(d["C"].items()) + [(h, "D:" + r) for h, r in d["D"].items()]:
+            done_at.setdefault(h, k)
+            res.setdefault(h, r)
+    if f is None:
+        # regular traffic: alive to the end, every answered call completed normally, nothing else completed
+        for k, d in enumerate(evs):
+            if d["I"] == "0":
+                fail("active-connection-killed", "is_connected = false at step %d although frames kept arriving every %d ms (limit %d ms)" % (k, GAP, lim))
+            for h, r in list(d["C"].items()) + list(d["D"].items()):
+                if r.startswith("disc:") or h in d["D"] or r in ("PLACEHOLDER", "svcdisc", "timeout"):
+                    fail("active-connection-killed", "handle %d completed with %s at step %d although frames kept arriving every %d ms (limit %d ms)" % (h, r, k, GAP, lim))
+            if d["X"]:
+                fail("active-connection-killed", "transport marks %s at step %d on a connection with regular traffic" % (d["X"], k))
+        for k, (t, m) in enumerate(S.steps):
+            if m.get("kind") == "back" and m.get("what") in ("answer", "sub-ok", "batch-answer"):
+                r = evs[k]["C"].get(m["h"])
+                want = {"answer": "ok:", "sub-ok": "sub:", "batch-answer": "batch:"}[m["what"]]
+                if r is None or not r.startswith(want):
+                    fail("active-connection-killed", "the answer to handle %d arrived at step %d but the call completed with %s" % (m["h"], k, r))
+            if m.get("kind") == "quiet" and m["ms"] >= 2 * iv and "ping" not in evs[k]["W"]:
+                fail("ping-not-written", "no ping frame written during %d ms of silence (interval %d ms)" % (m["ms"], iv))
+        left = [h for h in pend if not any(m.get("kind") == "ondisc" and m.get("h") == h for _, m in S.steps)]
+        if left:
+            fail("active-connection-killed", "handles %s still pending at the end although all were answered" % left)
+        return
+    if S.cause != "inactive":
+        return                                   # a failing ping: the general oracle (cause sendfault) says it all
+    # ---- a certainly-stale silence (or three partly stale ones, judged at the end)
+    flat = getattr(S, "flat", False)
+    before = [(k, m) for k, (t, m) in enumerate(S.steps) if k < f and m.get("kind") in ("call", "batch", "sub", "ondisc")]
+    answered = set(m["h"] for k, (t, m) in enumerate(S.steps) if k < f and m.get("kind") == "back" and m.get("what") in ("answer", "sub-ok", "batch-answer"))
+    later = [(k, m) for k, (t, m) in enumerate(S.steps) if k > f and m.get("kind") in ("call", "batch", "sub", "ondisc")]
+    conn_after = [evs[k]["I"] for k, (t, m) in enumerate(S.steps) if k > f and m.get("kind") == "isconn"]
+    later_failed = [m["h"] for k, m in later if m["h"] in res]
+    if "1" in conn_after or (later and not later_failed and not any(m["h"] in res for k, m in before if m["h"] not in answered)):
+        fail("inactivity-not-fatal", "after %s%d ms of silence (limit %d ms, max_failures %d) the client is still up: is_connected %s, later calls completed: %s"
+             % ("three times " if flat else "", S.steps[f][1]["ms"], lim, mf, conn_after, later_failed))
+        return
+    if not flat and "ping" not in evs[f]["W"]:
+        fail("ping-not-written", "no ping frame written during %d ms of silence (interval %d ms)" % (S.steps[f][1]["ms"], iv))
+    for k, m in before:
+        h = m["h"]
+        if h in answered:
+            continue
+        if h not in done_at or (not flat and done_at[h] > f):
+            fail("pending-not-failed-on-inactivity", "handle %d, pending when the silence began (step %d), %s" % (
+                h, f, "never completed" if h not in done_at else "completed only at step %d" % done_at[h]))
+        elif res[h] not in ("disc:inactive", "D:inactive"):
+            fail("inactivity-cause-missing", "handle %d, pending when the connection died of inactivity, completed with %s" % (h, res[h]))
+    for k, m in later:
+        h = m["h"]
+        if h not in done_at:
+            fail("pending-not-failed-on-inactivity", "handle %d issued after the connection died of inactivity (step %d) never completed" % (h, k))
+        elif res[h] not in ("disc:inactive", "D:inactive"):
+            fail("inactivity-cause-missing", "handle %d issued after the connection died of inactivity completed with %s" % (h, res[h]))
+
+
+def run_ping(ctx):
+    cases = ping_scripts(ctx)
+    lines = [S.text() for S in cases]
+    n = len(lines)
+    shards = min(48, max(1, n // 2))
+    prof = [("release", impl_bin("release")), ("debug", impl_bin("debug"))]
+    got = {}
+    for name, binp in prof:
+        raw = vlib.run_lines([binp], lines, shards=shards, min_shard=2)
+        cl = [canon(S, r) for S, r in zip(cases, raw)]
+        # a case whose timing precondition did not hold (a stalled process, an overloaded machine) is re-run, never judged
+        for attempt, sh in ((1, 8), (2, 2), (3, 1)):
+            bad = [i for i, (S, (c, clk)) in enumerate(zip(cases, cl)) if not timing_ok(S, clk)]
+            if not bad:
+                break
+            ctx.count("clifault:ping-timing-retry:%s" % name, len(bad))
+            again = vlib.run_lines([binp], [lines[i] for i in bad], shards=sh, min_shard=1)
+            for i, r in zip(bad, again):
+                cl[i] = canon(cases[i], r)
+        got[name] = cl
+    rm = vlib.run_lines([vlib.model_bin("clifault")], lines, min_shard=100)
+    unreliable = 0
+    for i, (S, line, b) in enumerate(zip(cases, lines, rm)):
+        a, clk = got["release"][i]
+        dbg, dclk = got["debug"][i]
+        ctx.count("clifault:" + S.family)
+        ctx.count("clifault:ping=%d,%d maxfail=%d slow=%d" % (S.ping + (S.slow,)))
+        case = {"script": line}
+        if not timing_ok(S, clk):
+            unreliable += 1
+            ctx.count("clifault:ping-timing-unreliable")
+            continue
+        flat = getattr(S, "flat", False)
+        ca, cb = (flatten(a), flatten(b)) if flat and not a.startswith(("CRASH", "?")) else (a, b)
+        if ca != cb:
+            ctx.fail("diff", "clifault-model-differs", case, {"impl": a, "model": b, "clock": clk})
+        if timing_ok(S, dclk):
+            cd = flatten(dbg) if flat and not dbg.startswith(("CRASH", "?")) else dbg
+            if cd != ca:
+                ctx.fail("oracle", "client-task-panicked" if "PANIC" in dbg or dbg.startswith("CRASH") else "debug-release-differ",
+                         case, {"debug": dbg, "release": a})
+        ctx.record(case, a, nontrivial=True)
+        said = set()
+
+        def fail(key, detail, case=case, said=said):
+            if key not in said:
+                said.add(key)
+                ctx.fail("oracle", key, case, detail)
+        if not flat:
+            oracle(S, a, fail)
+        elif "PANIC" in a or a.startswith("CRASH"):
+            fail("client-task-panicked", a[-200:])
+        ping_oracle(S, a, fail)
+    if unreliable:
+        ctx.note("clifault ping family: %d of %d cases not judged (the clock did not keep the planned gaps in 4 runs)" % (unreliable, n))
+    if unreliable * 2 > n:
+        ctx.fail("build", "ping-timing-unreliable", "clifault", "%d of %d timed cases could not be run with the planned gaps: machine overloaded" % (unreliable, n))
+
+
 def scripts(ctx):
     rng = ctx.rng
     out = []
@@ -384,7 +794,6 @@ def scripts(ctx):
 
 
 def run(ctx):
-    import os
     ok, log = vlib.model_build("clifault")
     if not ok:
         ctx.fail("build", "model-build-failed:clifault", "clifault", log[-2000:])
@@ -397,8 +806,10 @@ def run(ctx):
                 return
     cases = scripts(ctx)
     lines = [S.text() for _, S in cases]
-    ri = vlib.run_lines([vlib.rust_bin("clifault")], lines, min_shard=40)
-    rd = vlib.run_lines([vlib.rust_bin("clifault", "debug")], lines, min_shard=40)
+    if os.environ.get("VERIF_CLIFAULT_BIN"):
+        ctx.note("clifault implementation binary overridden: " + impl_bin())
+    ri = vlib.run_lines([impl_bin("release")], lines, min_shard=40)
+    rd = vlib.run_lines([impl_bin("debug")], lines, min_shard=40)
     rm = vlib.run_lines([vlib.model_bin("clifault")], lines, min_shard=100)
     for (tag, S), line, a, dbg, b in zip(cases, lines, ri, rd, rm):
         ctx.count("clifault:" + tag)
@@ -418,9 +829,10 @@ def run(ctx):
                 said.add(key)
                 ctx.fail("oracle", key, case, detail)
         oracle(S, a, fail)
+    run_ping(ctx)
 
 
 def replay_case(case):
-    for name, cmd in (("impl ", vlib.rust_bin("clifault")), ("debug", vlib.rust_bin("clifault", "debug")), ("model", vlib.model_bin("clifault"))):
+    for name, cmd in (("impl ", impl_bin("release")), ("debug", impl_bin("debug")), ("model", vlib.model_bin("clifault"))):
         rc, out = vlib.sh([cmd], input=case["script"] + "\n")
         print(name, "->", out.strip())
